@@ -232,7 +232,7 @@ def _path_effects(fn, b):
     return fx
 
 
-def feasible_reach(fn, start, avoid=(), known=None, limit=40000, edges=None):
+def feasible_reach(fn, start, avoid=(), known=None, limit=40000, edges=None, first_edge=None):
     """blocks reachable from `start` without entering `avoid`, pruning branches whose outcome is known along the path:
     boolean locals assigned constants, and enum values whose variant was just constructed (`Ok(..)`, `Err(..)`, the
     result of `?`'s from_residual) and is then tested through Try::branch / discriminant / switch.  This removes the
@@ -256,7 +256,11 @@ def feasible_reach(fn, start, avoid=(), known=None, limit=40000, edges=None):
         seen.add((b, kn))
         out.add(b)
         env = dict(kn)
-        _push = (lambda x, k2: (edges.add((b, x)) if edges is not None else None, st.append((x, k2)))[1])
+        if first_edge is not None and b == start and n == 1:
+            # leave the start block through one given edge only (the other successors may be re-entered later on)
+            _push = (lambda x, k2: (edges.add((b, x)) if edges is not None else None, st.append((x, k2)))[1] if x == first_edge else None)
+        else:
+            _push = (lambda x, k2: (edges.add((b, x)) if edges is not None else None, st.append((x, k2)))[1])
         for l, v in _path_effects(fn, b):
             if v is None:
                 env.pop(l, None)
